@@ -575,7 +575,26 @@ func jsondecStream(rng *rand.Rand, n int, tier string, out string) (*Summary, er
 		for k := 0; k < quota/4; k++ {
 			g.pField = 0.5
 			a := g.genTree()
-			b := g.genTree()
+			var b ygot.GoStruct = g.genTree()
+			if k%2 == 1 {
+				// b derived from a: a random part of a (list entries at every depth keep their
+				// keys, so existing entries are named again with a subset of their members),
+				// with some leaves changed
+				b = mgClone(a)
+				mgProject(rng, p, b, 0.65)
+				dropOrd := rng.Intn(4) != 0 // an existing ordered-list key is rejected (known finding)
+				for _, sl := range mgSlots(p, b) {
+					switch {
+					case sl.kind == "omap" && dropOrd:
+						sl.field().Set(reflect.Zero(sl.sf.Type))
+					case sl.kind == "leaf" && !sl.isKey && rng.Intn(3) == 0:
+						mgRegenLeaf(g, sl)
+					}
+				}
+				sum.count("merge_pair", "derived")
+			} else {
+				sum.count("merge_pair", "independent")
+			}
 			if p.Flags["wrapper_unions"] {
 				// wrapper-union list keys are pointers: an entry with an equal key value is a
 				// different map key, so such lists never merge by key (probed separately below)
